@@ -102,7 +102,10 @@ func NewReport(property string) *Report {
 	go func() {
 		for {
 			time.Sleep(250 * time.Millisecond)
-			ms := r.realMs.Add(250)
+			// this goroutine lives outside any synctest bubble: its clock is the real one. Measure elapsed time instead of
+			// counting wake-ups, which lag badly on a loaded machine with GOMAXPROCS=1
+			ms := time.Since(r.start).Milliseconds()
+			r.realMs.Store(ms)
 			if dl > 0 && ms >= int64(dl)*1000 {
 				r.expired.Store(true)
 			}
